@@ -349,6 +349,7 @@ func init() {
 		registerReplay("C11/io", func(c ioCase) *fail { return runIOCase(c, nil) })
 		registerReplay("C11/io-socket", func(c ioCase) *fail { return runIOCase(c, nil) })
 		registerReplay("C11/concurrent-reads", runConcReadCase)
+		registerReplay("C11/cut", func(c ioCutCase) *fail { _, f := runIOCutCase(c); return f })
 	})
 }
 
@@ -474,6 +475,29 @@ func TestC11(t *testing.T) {
 		h.Case(evid.HashJSON(c), c.EOFReads > 0, "concurrent-reads")
 		return runConcReadCase(c)
 	})
+	// the connection dies inside a chunk (real sockets)
+	{
+		totals := map[string]int{}
+		rapidCases(h, "cut", env.PerShard(env.Pick(480, 24000)), func(rt *rapid.T) ioCutCase {
+			c := ioCutCase{Op: rapid.SampledFrom([]string{"read", "write"}).Draw(rt, "op"), Msize: rapid.SampledFrom([]uint32{4096, 8192, 65536}).Draw(rt, "msize"),
+				Len: rapid.SampledFrom([]int{100, 4000, 9000, 20000, 70000}).Draw(rt, "len"), Off: uint64(rapid.SampledFrom([]int{0, 1, 5000, 123457}).Draw(rt, "off"))}
+			key := fmt.Sprintf("%s/%d/%d", c.Op, c.Msize, c.Len)
+			if _, ok := totals[key]; !ok {
+				m := c
+				m.CutAt = -1
+				totals[key], _ = runIOCutCase(m)
+			}
+			c.CutAt = rapid.IntRange(1, max(totals[key]-1, 1)).Draw(rt, "cut")
+			return c
+		}, func(c ioCutCase) *fail {
+			h.Case(evid.HashJSON(c), true, "cut:"+c.Op)
+			if h.WantSample("cut") {
+				h.Sample("cut", c)
+			}
+			_, f := runIOCutCase(c)
+			return f
+		})
+	}
 	// the same rule over a real socket pair (vectorised receive path on both
 	// peers), frames up to 4 MiB through kernel buffers of 2-208 KiB
 	rapidCases(h, "io-socket", env.PerShard(env.Pick(800, 40000)), genIOSockCase, func(c ioCase) *fail {
